@@ -1069,20 +1069,25 @@ def _linearise(body, truth: dict[str, bool]) -> list[ast.stmt]:
 
 
 def _used_only_as_dtype(fn: FunctionInfo, param: str) -> bool:
-    """every use of the parameter is as a dtype (dtype=param, second positional of zeros/empty/ones, np.promote_types / result_type argument)"""
-    uses = 0
+    """every use of the parameter is as a dtype: inside a `dtype=` keyword, as the dtype positional of zeros/ones/empty/full, as an argument of
+    np.promote_types / np.result_type / np.dtype, or in a test `param is None`"""
+    ok_nodes: set[int] = set()
     for node in walk_no_nested(fn.node):
         if isinstance(node, ast.Call):
             nm = node.func.attr if isinstance(node.func, ast.Attribute) else getattr(node.func, "id", "")
-            for k in node.keywords:
-                if k.arg == "dtype" and isinstance(k.value, ast.Name) and k.value.id == param:
-                    uses += 1
-            if nm in ("zeros", "ones", "empty", "full") and len(node.args) >= 2 and isinstance(node.args[1], ast.Name) and node.args[1].id == param:
-                uses += 1
+            roots = [k.value for k in node.keywords if k.arg == "dtype"]
+            if nm in ("zeros", "ones", "empty", "full") and len(node.args) >= 2:
+                roots.append(node.args[-1] if nm != "full" or len(node.args) >= 3 else node.args[1])
             if nm in ("promote_types", "result_type", "dtype", "astype"):
-                uses += sum(1 for a in node.args if isinstance(a, ast.Name) and a.id == param)
-    total = sum(1 for node in walk_no_nested(fn.node) if isinstance(node, ast.Name) and node.id == param and isinstance(node.ctx, ast.Load))
-    return uses > 0 and uses == total
+                roots += list(node.args)
+            for r in roots:
+                for x in ast.walk(r):
+                    ok_nodes.add(id(x))
+        if isinstance(node, ast.Compare) and len(node.ops) == 1 and isinstance(node.ops[0], (ast.Is, ast.IsNot)) and isinstance(node.left, ast.Name) \
+                and isinstance(node.comparators[0], ast.Constant) and node.comparators[0].value is None:
+            ok_nodes.add(id(node.left))
+    loads = [x for x in walk_no_nested(fn.node) if isinstance(x, ast.Name) and x.id == param and isinstance(x.ctx, ast.Load)]
+    return bool(loads) and all(id(x) in ok_nodes for x in loads)
 
 
 def _call_sites(prog: Program, fn: FunctionInfo) -> list:
@@ -1288,8 +1293,9 @@ def rule_K7(run: Run, prog: Program) -> int:
         moved = {}
         for key, (st, cst, missing, pd) in findings.items():
             dtype_params = {p_ for p_ in pd if _used_only_as_dtype(fn, p_)}
-            if dtype_params and dtype_params == set(pd):
-                moved[key] = (dtype_params, set(missing))
+            if dtype_params:
+                # the dtype is (also) handed in by the caller: `dtype=v.dtype if dtype is None else dtype` - the call sites decide
+                moved[key] = (set(pd), set(missing))
         if moved and len(moved) == len(findings):
             dps, stored = set(), set()
             for d_, m_ in moved.values():
